@@ -289,6 +289,29 @@ def run_native(body, params, assignment, stubs_native=None):
         core.set_ctx(saved)
 
 
+NATIVE_HANG_S = 10
+
+
+class NativeTimeout(BaseException):
+    pass
+
+
+def run_native_timed(body, params, assignment, seconds):
+    """run_native under a wall-clock limit (SIGALRM; main thread of a worker process)"""
+    import signal
+
+    def on_alarm(signum, frame):
+        raise NativeTimeout()
+
+    old = signal.signal(signal.SIGALRM, on_alarm)
+    signal.setitimer(signal.ITIMER_REAL, seconds)
+    try:
+        return run_native(body, params, assignment)
+    finally:
+        signal.setitimer(signal.ITIMER_REAL, 0)
+        signal.signal(signal.SIGALRM, old)
+
+
 def explore(body, params=None, name="", *, max_paths=20000, budget_s=None, stop_on_violation=True,
             validate=True, interp_kwargs=None, ctx_kwargs=None, active_known=(), max_samples=4,
             witness=False):
@@ -376,8 +399,38 @@ def explore(body, params=None, name="", *, max_paths=20000, budget_s=None, stop_
         except PathAbort:
             res.aborted += 1
         except BoundExceeded as e:
-            res.inconclusive.append(f"bound exceeded: {e}")
+            # an unwinding bound was hit.  For loop / recursion bounds, run the real code on a
+            # model of this path under a wall-clock limit: if it does not come back either, the
+            # non-termination is real (a violation of any property that promises an outcome);
+            # otherwise the bound was merely too small for this input: inconclusive.
+            hung = False
+            if not witness and ("loop" in str(e) or "recursion" in str(e)):
+                try:
+                    m = c.feasible()
+                    if m is not None:
+                        assignment = X.model_values(m)
+                        core.set_ctx(None)
+                        try:
+                            run_native_timed(body, bparams, assignment, NATIVE_HANG_S)
+                        except NativeTimeout:
+                            hung = True
+                            res.violations.append({"assignment": jsonable(assignment), "params": jsonable(bparams),
+                                                   "obs_native": {"non_termination": True, "native_run_exceeded_s": NATIVE_HANG_S,
+                                                                  "bound": str(e)}})
+                        except Exception:
+                            pass
+                except BaseException:
+                    pass
             res.complete = False
+            if hung:
+                if stop_on_violation:
+                    res.queries += c.nqueries
+                    res.solver_time += c.solver_time
+                    res.decisions += c.ndecisions
+                    core.set_ctx(None)
+                    break
+            else:
+                res.inconclusive.append(f"bound exceeded: {e}")
         except Inconclusive as e:
             res.inconclusive.append(f"solver unknown: {e}")
             res.complete = False
